@@ -55,7 +55,7 @@ static const double DV[] = { 0.0, -0.0, 0.5, 1.5, 2.5, 999999999.5, 1e9, 1000000
     /* exponent borders and negative exponents: two/three exponent digits, carries into the next power of ten */
     1e100, 9.9999996e99, 1e-100, 9.5e-100, 9.5e-10, 3.7e-7, 1e99, 9.99999e-5, 1e15, 123456789012345678.0 };
 #define NDV ((int)(sizeof DV / sizeof DV[0]))
-static const char *SV[] = { "", "abc", "a string of exactly forty characters !!!", "h\xc3\xa9llo" };
+static const char *SV[] = { "", "abc", "a string of exactly forty characters !!!", "h\xc3\xa9llo", NULL };      /* the null pointer (a violation the formatter itself finds) only in the reporting and memory sweeps */
 static const wchar_t WBAD[] = { L'o', L'k', 0xd800, L'x', 0 };     /* not convertible in any locale: printf fails with EILSEQ */
 static const wchar_t *WV[] = { L"", L"wide", L"\xe9\x20ac", WBAD };
 static const wint_t WCV[] = { L'A', 0xe9, 0xd800, 0x200000, 0x7fffffff };     /* the last two: beyond Unicode, glibc still encodes them (5 and 6 bytes) */
@@ -212,7 +212,8 @@ static void one(const char *fmt, int type, Val v, int ns, int s1, int s2, int is
                 char w[48];
                 if (r < 0 && h_n != 1) { snprintf(w, sizeof w, "handler-invoked-%dx", h_n); report(ENT[entry], w, cls, cs); }
                 else if (r >= 0 && h_n) { snprintf(w, sizeof w, "handler-but-success"); report(ENT[entry], w, cls, cs); }
-                break;
+                if (hist == 1 || !fp) break;      /* a stream is tried again with its error indicator left set by an earlier, unrelated failure */
+                continue;
             }
             if (strcmp(g_prop, "C11")) break;            /* memory-safety sweep: nothing else is judged */
             if (hist == 1) { done2 = 1; break; }
@@ -312,8 +313,8 @@ int main(int argc, char **argv) {
                 }
                 if ((!strcmp(group, "str") || !strcmp(group, "all")) && !(fm & (2 | 4 | 8 | 16))) {    /* only '-' is defined for c s */
                     if ((idx++ % nsh) != shard) continue;
-                    for (int vi = 0; vi < 4; vi++) { Val v; v.s = SV[vi]; snprintf(fmt, sizeof fmt, "[%%%s%s%ss]", fl, WID[wi], PRE[pi]);
-                        snprintf(cls, sizeof cls, "s,flags=%s,width=%s,prec=%s%s", fl[0] ? fl : "none", WID[wi][0] ? WID[wi] : "none", PRE[pi][0] ? PRE[pi] : "none", neg ? ",negative-star" : ""); one(fmt, T_STR, v, ns, a1, a2, 0, cls, vi, tier); }
+                    for (int vi = 0; vi < (strcmp(g_prop, "C11") ? 5 : 4); vi++) { Val v; v.s = SV[vi]; snprintf(fmt, sizeof fmt, "[%%%s%s%ss]", fl, WID[wi], PRE[pi]);
+                        snprintf(cls, sizeof cls, "s,flags=%s,width=%s,prec=%s%s%s", fl[0] ? fl : "none", WID[wi][0] ? WID[wi] : "none", PRE[pi][0] ? PRE[pi] : "none", neg ? ",negative-star" : "", vi == 4 ? ",null-argument" : ""); one(fmt, T_STR, v, ns, a1, a2, 0, cls, vi, tier); }
                     for (int vi = 0; vi < 4; vi++) { Val v; v.w = WV[vi]; snprintf(fmt, sizeof fmt, "[%%%s%s%sls]", fl, WID[wi], PRE[pi]);
                         snprintf(cls, sizeof cls, "ls,flags=%s,width=%s,prec=%s%s", fl[0] ? fl : "none", WID[wi][0] ? WID[wi] : "none", PRE[pi][0] ? PRE[pi] : "none", neg ? ",negative-star" : ""); one(fmt, T_WSTR, v, ns, a1, a2, 0, cls, vi, tier); }
                     if (pi == 0) {
